@@ -218,7 +218,7 @@ class Unit:
         if key.startswith("def:"):
             return z3.ArraySort(I, B)
         if key.startswith("g:"):
-            return z3.ArraySort(I, I)
+            return z3.ArraySort(I, sort_of(ty) if ty is not None else I)
         raise Unsupported(key)
 
     def array_axioms(self, key, A, nx, ty):
@@ -252,7 +252,7 @@ class Unit:
             if key.startswith("def:"):
                 return BOOL
             if key.startswith("g:"):
-                return INT
+                return self.T(self.reg.ghost_fields.get(key[2:], "int"))
         return self._key_ty[key]
 
     _key_ty = {}
